@@ -253,7 +253,7 @@ def select(ck, cases):
     """seeded stratified sample per cfg: scenarios where the model predicts a patch first, a slice of the rest"""
     rng = random.Random(ck.seed * 1000003 + 11)
     by = {}
-    for c in cases:
+    for c in sorted(cases, key=lambda c: c["id"]):      # TLC prints in worker order: make the sample depend on the seed only
         by.setdefault(c["cfg"], []).append(c)
     cap_nt, cap_tr = (12000, 2000) if ck.thorough() else (1500, 250)
     out = []
